@@ -1007,7 +1007,8 @@ class MyPyAstVisitor:
     @staticmethod
     def _get_field_default(node: mp_nodes.FuncDef, field_name: str) -> mp_nodes.Expression | None:
         """Find the value that the class body assigns to a field ("y: int = 3" or "y: int = field(default=3)")."""
-        if node.name != "__init__" or not isinstance(node.info, mp_nodes.TypeInfo):
+        # (a function outside of a class has a placeholder instead of the class information)
+        if node.name != "__init__" or isinstance(node.info, mp_nodes.FakeInfo) or not isinstance(node.info, mp_nodes.TypeInfo):
             return None
         class_def = node.info.defn
 
